@@ -41,7 +41,10 @@ class _VRandom:
 
   @staticmethod
   def sample(population, k):
-    return list(population)[:k]
+    population = list(population)
+    if not 0 <= k <= len(population):   # as random.sample does
+      raise ValueError('Sample larger than population or is negative')
+    return population[:k]
 
   @staticmethod
   def random():
